@@ -854,6 +854,12 @@ class Machine:
             if op == 'BitAnd': return (a & b) if not isinstance(a, bool) else (a and b)
             if op == 'BitOr': return (a | b) if not isinstance(a, bool) else (a or b)
             if op == 'BitXor': return a ^ b
+            if op in ('Shl', 'ShlUnchecked'):
+                if b < 0 or b >= INT_BITS.get(ty, 64): raise RustPanic('attempt to shift left with overflow')
+                return wrap_int(a << b, ty)
+            if op in ('Shr', 'ShrUnchecked'):
+                if b < 0 or b >= INT_BITS.get(ty, 64): raise RustPanic('attempt to shift right with overflow')
+                return wrap_int(a >> b, ty)
             raise Unsupported('binop ' + op)
         # symbolic
         ty = a.ty if isinstance(a, Sym) else b.ty
@@ -894,6 +900,14 @@ class Machine:
         if op == 'Mul': return Sym(ea * eb, ty)
         if op == 'Div': return Sym(ea / eb if sg else z3.UDiv(ea, eb), ty)
         if op == 'Rem': return Sym(z3.SRem(ea, eb) if sg else z3.URem(ea, eb), ty)
+        if op == 'BitAnd': return Sym(ea & eb, ty)
+        if op == 'BitOr': return Sym(ea | eb, ty)
+        if op == 'BitXor': return Sym(ea ^ eb, ty)
+        if op in ('Shl', 'ShlUnchecked', 'Shr', 'ShrUnchecked'):
+            # the shift amount may have another width: bring it to the width of the shifted value
+            if eb.size() != ea.size(): eb = z3.ZeroExt(ea.size() - eb.size(), eb) if eb.size() < ea.size() else z3.Extract(ea.size() - 1, 0, eb)
+            if op.startswith('Shl'): return Sym(ea << eb, ty)
+            return Sym((ea >> eb) if sg else z3.LShR(ea, eb), ty)
         raise Unsupported('sym binop ' + op)
 
     def operand_ty(self, frame, op):
